@@ -168,7 +168,7 @@ class SimCircuit(object):
         self.hs_state = None
         self.rend_query = None
         self.time_created = None
-        self.ever_built = False
+        self.ever_built = False        # BUILT has been reported (event or snapshot)
         self.had_streams = False       # a stream was attached at some time (not "clean")
         self.marked = False            # a requested close is pending (no further steps)
         self.guard_waited = False
@@ -390,6 +390,9 @@ class TorSim(object):
                 ev.expect.append(("circuit_built",))
             c.reported = True
             c.reported_hops = len(c.path)
+            # "was BUILT" as far as the controller can know: a circuit that was built and then
+            # cannibalized before the snapshot is reported as EXTENDED / GUARD_WAIT only
+            c.ever_built = c.status == "BUILT"
             c.first_seen = "snapshot-" + c.status
             c.last_keywords = kw
             evs.append(ev)
